@@ -68,14 +68,18 @@ def build_wn(spec, controls=True):
     for rs in spec['reservoirs']:
         wn.add_reservoir(rs['name'], base_head=rs['head'], head_pattern=rs.get('pat'),
                          coordinates=tuple(rs.get('xy', (0.0, 0.0))))
+    # add_pipe / add_pump accept the initial status as a string, a LinkStatus or an int ('initial_status must be an int,
+    # string or LinkStatus'); spec['int_status'] selects the int form
+    def st_(x):
+        return {'OPEN': 1, 'CLOSED': 0}[x] if spec.get('int_status') else x
     for p in spec['pipes']:
         wn.add_pipe(p['name'], p['a'], p['b'], length=p['len'], diameter=p['diam'], roughness=p['C'],
-                    minor_loss=p['minor'], initial_status=p['status'], check_valve=p['cv'])
+                    minor_loss=p['minor'], initial_status=st_(p['status']), check_valve=p['cv'])
     for p in spec['pumps']:
         if p['type'] == 'HEAD':
-            wn.add_pump(p['name'], p['a'], p['b'], 'HEAD', p['curve'], initial_status=p['status'])
+            wn.add_pump(p['name'], p['a'], p['b'], 'HEAD', p['curve'], initial_status=st_(p['status']))
         else:
-            wn.add_pump(p['name'], p['a'], p['b'], 'POWER', p['power'], initial_status=p['status'])
+            wn.add_pump(p['name'], p['a'], p['b'], 'POWER', p['power'], initial_status=st_(p['status']))
     for v in spec['valves']:
         wn.add_valve(v['name'], v['a'], v['b'], diameter=v['diam'], valve_type=v['type'], minor_loss=v['minor'],
                      initial_setting=v['setting'], initial_status=v['status'])
